@@ -438,9 +438,9 @@ Proof.
         rewrite led1_val in Hge.
         destruct (c =? caller) eqn:Ec.
         -- apply N.eqb_eq in Ec. subst c. rewrite pget_set_same.
-           rewrite Hamt in Hca. injection Hca as <-. unfold ledger in *. split; [lia|]. nia.
+           rewrite Hamt in Hca. injection Hca as <-. unfold ledger in *. split; [lia|]. rewrite N.mul_add_distr_r, N.mul_1_l. lia.
         -- apply N.eqb_neq in Ec. rewrite pget_set_other by congruence.
-           unfold ledger in *. split; [lia|]. nia.
+           unfold ledger in *. split; [lia|]. rewrite N.mul_add_distr_r, N.mul_1_l. lia.
       * rewrite get_clear_other by exact Hr.
         rewrite led1_other by congruence.
         rewrite pget_set_other by congruence.
